@@ -1,8 +1,611 @@
 package c04
 
-import "verif/mc/hres"
+import (
+	"fmt"
+	"os"
+	"os/exec"
+	"path/filepath"
+	"sort"
+	"strconv"
+	"strings"
+	"sync"
+	"time"
 
-// tlcValidate cross-checks the reference interpreter against pcal+TLC (thorough tier).
+	"verif/mc/hres"
+)
+
+// pcal.go (thorough tier): the reference interpreter of ref.go is cross-checked against the PlusCal translator
+// and TLC.  A representative sample of the enumerated programs is rendered as a uniprocess PlusCal algorithm
+// (ref parameters are expanded: a procedure with `ref x` becomes a procedure that uses the global it is bound
+// to), translated with `pcal -nocfg`, model-checked with `tlc -dump`; the algorithm is deterministic, so the
+// dump is its single behaviour, and *every* state of it (pc, every stack frame with its saved values, every
+// variable) is compared with the corresponding state of the reference interpreter.
+//
+// Two things differ between PlusCal and the generated Go and are normalised (neither is observable by a program):
+//   * PlusCal gives a procedure variable with a declared initial value that value already in Init; the Go runtime
+//     creates procedure variables on the first call.  The reference is run with pluscalInit=true here.
+//   * PlusCal frames carry a `procedure` field.
+
+// specialise decides, for every procedure with a ref parameter, the global ("g" or "e") it is bound to.
+// ok=false: the program uses refs to procedure variables, or binds one procedure to two different globals.
+func specialise(pr *Prog) (target map[int]string, ok bool) {
+	target = map[int]string{}
+	bad := false
+	visit := func(scope int, lab Label) (changed bool) {
+		t := lab.T
+		if t.K != "call" && t.K != "tail" {
+			return false
+		}
+		for _, a := range t.Args {
+			if !a.Ref {
+				continue
+			}
+			var tg string
+			if scope < 0 {
+				tg = a.V // g or e
+			} else {
+				isRef, _ := pr.hasVar(scope, a.V)
+				if !isRef {
+					bad = true // ref to a procedure variable: no PlusCal counterpart
+					return false
+				}
+				tg = target[scope]
+				if tg == "" {
+					continue // the caller's own binding is not known yet
+				}
+			}
+			if old, ok := target[t.P]; ok && old != tg {
+				bad = true
+				return false
+			}
+			if _, ok := target[t.P]; !ok {
+				target[t.P] = tg
+				changed = true
+			}
+		}
+		return changed
+	}
+	for again := true; again && !bad; {
+		again = false
+		for _, l := range pr.Main {
+			if visit(-1, l) {
+				again = true
+			}
+		}
+		for i, p := range pr.Procs {
+			for _, l := range p.Labels {
+				if visit(i, l) {
+					again = true
+				}
+			}
+		}
+	}
+	if bad {
+		return nil, false
+	}
+	for i, p := range pr.Procs {
+		if p.X == "ref" {
+			if _, ok := target[i]; !ok {
+				return nil, false
+			}
+		}
+	}
+	return target, true
+}
+
+func renderPlusCal(name string, pr *Prog, target map[int]string) string {
+	var b strings.Builder
+	fmt.Fprintf(&b, "---- MODULE %s ----\nEXTENDS Integers, Sequences, TLC\nCONSTANT defaultInitValue\n(* --algorithm %s {\nvariables g = %d, e = %d;\n", name, name, gInit, eInit)
+	vname := func(scope int, v string) string {
+		if scope < 0 {
+			return v
+		}
+		if v == "x" && pr.Procs[scope].X == "ref" {
+			return target[scope]
+		}
+		return fmt.Sprintf("%s%d", v, scope)
+	}
+	expr := func(scope int, e Expr) string {
+		switch e.K {
+		case "c":
+			return fmt.Sprint(e.N)
+		case "N":
+			return fmt.Sprint(pr.N)
+		case "v":
+			return vname(scope, e.V)
+		case "v+1":
+			return vname(scope, e.V) + " + 1"
+		case "v-1":
+			return vname(scope, e.V) + " - 1"
+		}
+		return "?"
+	}
+	lbl := func(scope, l int) string {
+		if scope < 0 {
+			return fmt.Sprintf("m%d", l)
+		}
+		return fmt.Sprintf("P%d_l%d", scope, l)
+	}
+	term := func(scope int, t Term, last bool) string {
+		call := func() string {
+			var as []string
+			for _, a := range t.Args {
+				if a.Ref {
+					continue
+				}
+				as = append(as, expr(scope, a.E))
+			}
+			return fmt.Sprintf("call P%d(%s)", t.P, strings.Join(as, ", "))
+		}
+		switch t.K {
+		case "goto":
+			return "goto " + lbl(scope, t.L) + ";"
+		case "ret":
+			return "return;"
+		case "done":
+			return "skip;"
+		case "call":
+			if scope < 0 {
+				return call() + ";" // followed by the next label
+			}
+			return fmt.Sprintf("if (%s > 0) { %s; goto %s; } else { goto %s; };", vname(scope, "n"), call(), lbl(scope, t.L), lbl(scope, t.L))
+		case "tail":
+			return fmt.Sprintf("if (%s > 0) { %s; return; } else { return; };", vname(scope, "n"), call())
+		}
+		return "?"
+	}
+	for i, p := range pr.Procs {
+		ps := []string{vname(i, "n")}
+		if p.X == "val" {
+			ps = append(ps, vname(i, "x"))
+		}
+		fmt.Fprintf(&b, "procedure P%d(%s)\n", i, strings.Join(ps, ", "))
+		if p.Y == "default" {
+			fmt.Fprintf(&b, "  variables %s;\n", vname(i, "y"))
+		} else if p.Y == "const" {
+			fmt.Fprintf(&b, "  variables %s = %d;\n", vname(i, "y"), p.YInit)
+		}
+		b.WriteString("{\n")
+		for l, lab := range p.Labels {
+			fmt.Fprintf(&b, "  %s: ", lbl(i, l))
+			for _, a := range lab.As {
+				fmt.Fprintf(&b, "%s := %s; ", vname(i, a.T), expr(i, a.E))
+			}
+			b.WriteString(term(i, lab.T, l == len(p.Labels)-1) + "\n")
+		}
+		b.WriteString("}\n")
+	}
+	b.WriteString("{\n")
+	for l, lab := range pr.Main {
+		fmt.Fprintf(&b, "  %s: %s\n", lbl(-1, l), term(-1, lab.T, l == len(pr.Main)-1))
+	}
+	b.WriteString("}\n} *)\n====\n")
+	return b.String()
+}
+
+// ---- TLC value parser (just what the dumps of these algorithms contain)
+
+type tval struct {
+	kind string // int | str | id | seq | rec
+	n    int
+	s    string
+	seq  []tval
+	rec  map[string]tval
+}
+
+type tparser struct {
+	s string
+	i int
+}
+
+func (p *tparser) ws() {
+	for p.i < len(p.s) && (p.s[p.i] == ' ' || p.s[p.i] == '\n' || p.s[p.i] == '\t' || p.s[p.i] == '\r') {
+		p.i++
+	}
+}
+
+func (p *tparser) parse() (tval, error) {
+	p.ws()
+	if p.i >= len(p.s) {
+		return tval{}, fmt.Errorf("unexpected end")
+	}
+	switch {
+	case strings.HasPrefix(p.s[p.i:], "<<"):
+		p.i += 2
+		v := tval{kind: "seq"}
+		for {
+			p.ws()
+			if strings.HasPrefix(p.s[p.i:], ">>") {
+				p.i += 2
+				return v, nil
+			}
+			e, err := p.parse()
+			if err != nil {
+				return tval{}, err
+			}
+			v.seq = append(v.seq, e)
+			p.ws()
+			if p.i < len(p.s) && p.s[p.i] == ',' {
+				p.i++
+			}
+		}
+	case p.s[p.i] == '[':
+		p.i++
+		v := tval{kind: "rec", rec: map[string]tval{}}
+		for {
+			p.ws()
+			if p.s[p.i] == ']' {
+				p.i++
+				return v, nil
+			}
+			j := p.i
+			for p.i < len(p.s) && (p.s[p.i] == '_' || p.s[p.i] >= '0' && p.s[p.i] <= '9' || p.s[p.i] >= 'a' && p.s[p.i] <= 'z' || p.s[p.i] >= 'A' && p.s[p.i] <= 'Z') {
+				p.i++
+			}
+			key := p.s[j:p.i]
+			p.ws()
+			if !strings.HasPrefix(p.s[p.i:], "|->") {
+				return tval{}, fmt.Errorf("expected |-> at %d in %q", p.i, p.s)
+			}
+			p.i += 3
+			e, err := p.parse()
+			if err != nil {
+				return tval{}, err
+			}
+			v.rec[key] = e
+			p.ws()
+			if p.i < len(p.s) && p.s[p.i] == ',' {
+				p.i++
+			}
+		}
+	case p.s[p.i] == '"':
+		j := p.i + 1
+		k := strings.IndexByte(p.s[j:], '"')
+		if k < 0 {
+			return tval{}, fmt.Errorf("unterminated string")
+		}
+		p.i = j + k + 1
+		return tval{kind: "str", s: p.s[j : j+k]}, nil
+	case p.s[p.i] == '-' || p.s[p.i] >= '0' && p.s[p.i] <= '9':
+		j := p.i
+		p.i++
+		for p.i < len(p.s) && p.s[p.i] >= '0' && p.s[p.i] <= '9' {
+			p.i++
+		}
+		n, err := strconv.Atoi(p.s[j:p.i])
+		return tval{kind: "int", n: n}, err
+	default:
+		j := p.i
+		for p.i < len(p.s) && (p.s[p.i] == '_' || p.s[p.i] >= '0' && p.s[p.i] <= '9' || p.s[p.i] >= 'a' && p.s[p.i] <= 'z' || p.s[p.i] >= 'A' && p.s[p.i] <= 'Z') {
+			p.i++
+		}
+		if j == p.i {
+			return tval{}, fmt.Errorf("unexpected %q at %d", p.s[p.i], p.i)
+		}
+		return tval{kind: "id", s: p.s[j:p.i]}, nil
+	}
+}
+
+func parseDump(text string) ([]map[string]tval, error) {
+	var states []map[string]tval
+	for _, blk := range strings.Split(text, "State ")[1:] {
+		nl := strings.IndexByte(blk, '\n')
+		body := blk[nl+1:]
+		st := map[string]tval{}
+		for _, conj := range strings.Split("\n"+body, "\n/\\ ")[1:] {
+			eq := strings.Index(conj, " = ")
+			if eq < 0 {
+				return nil, fmt.Errorf("bad conjunct %q", conj)
+			}
+			p := &tparser{s: conj[eq+3:]}
+			v, err := p.parse()
+			if err != nil {
+				return nil, fmt.Errorf("%v in %q", err, conj)
+			}
+			st[strings.TrimSpace(conj[:eq])] = v
+		}
+		states = append(states, st)
+	}
+	return states, nil
+}
+
+func (v tval) equalsVal(r Val) bool {
+	switch r.K {
+	case 0:
+		return v.kind == "id" && v.s == "defaultInitValue"
+	case 1:
+		return v.kind == "int" && v.n == r.N
+	case 2:
+		return v.kind == "str" && v.s == r.S
+	}
+	return false
+}
+
+func (v tval) String() string {
+	switch v.kind {
+	case "int":
+		return fmt.Sprint(v.n)
+	case "str":
+		return strconv.Quote(v.s)
+	case "id":
+		return v.s
+	case "seq":
+		var ps []string
+		for _, e := range v.seq {
+			ps = append(ps, e.String())
+		}
+		return "<<" + strings.Join(ps, ", ") + ">>"
+	case "rec":
+		ks := make([]string, 0, len(v.rec))
+		for k := range v.rec {
+			ks = append(ks, k)
+		}
+		sort.Strings(ks)
+		var ps []string
+		for _, k := range ks {
+			ps = append(ps, k+" |-> "+v.rec[k].String())
+		}
+		return "[" + strings.Join(ps, ", ") + "]"
+	}
+	return "?"
+}
+
+// tlcName maps a reference slot to the PlusCal variable ("" = no counterpart: a ref parameter's name slot).
+func tlcName(pr *Prog, slot string) string {
+	switch slot {
+	case "A.g":
+		return "g"
+	case "&A.e":
+		return "e"
+	case "A.e":
+		return ""
+	}
+	var i int
+	var v string
+	parts := strings.SplitN(slot, ".", 2)
+	fmt.Sscanf(parts[0], "P%d", &i)
+	v = parts[1]
+	if v == "x" && pr.Procs[i].X == "ref" {
+		return ""
+	}
+	return fmt.Sprintf("%s%d", v, i)
+}
+
+func tlcPC(pc string) string {
+	if pc == "A.Done" {
+		return "Done"
+	}
+	parts := strings.SplitN(pc, ".", 2)
+	if parts[0] == "A" {
+		return parts[1]
+	}
+	return parts[0] + "_" + parts[1]
+}
+
+// compareWithTLC returns "" if the reference behaviour equals the TLC behaviour state by state.
+func compareWithTLC(pr *Prog, states []map[string]tval) string {
+	r := NewRef(pr)
+	for i, p := range pr.Procs { // PlusCal: declared initial values hold from Init on
+		if p.Y == "const" {
+			r.Slots[procName(i)+".y"] = num(p.YInit)
+		}
+	}
+	for k := 0; ; k++ {
+		if k >= len(states) {
+			return fmt.Sprintf("TLC's behaviour has %d states, the reference goes on (pc %s)", len(states), r.PC)
+		}
+		st := states[k]
+		if pc := st["pc"]; pc.kind != "str" || pc.s != tlcPC(r.PC) {
+			return fmt.Sprintf("state %d: TLC pc = %v, reference pc = %s", k+1, pc, r.PC)
+		}
+		stack := st["stack"]
+		if stack.kind != "seq" || len(stack.seq) != len(r.Stack) {
+			return fmt.Sprintf("state %d: TLC stack %v, reference depth %d", k+1, stack, len(r.Stack))
+		}
+		for fi, f := range r.Stack {
+			tf := stack.seq[fi]
+			if tf.kind != "rec" || tf.rec["pc"].kind != "str" || tf.rec["pc"].s != tlcPC(f.PC) {
+				return fmt.Sprintf("state %d frame %d: TLC %v, reference returns to %s", k+1, fi, tf, f.PC)
+			}
+			n := 0
+			for slot, v := range f.Saved {
+				name := tlcName(pr, slot)
+				if name == "" {
+					continue
+				}
+				n++
+				if tv, ok := tf.rec[name]; !ok || !tv.equalsVal(v) {
+					return fmt.Sprintf("state %d frame %d: TLC saved %s = %v, reference saved %v", k+1, fi, name, tf.rec[name], v)
+				}
+			}
+			if len(tf.rec) != n+2 { // + pc + procedure
+				return fmt.Sprintf("state %d frame %d: TLC frame %v has %d fields, reference saves %d variables", k+1, fi, tf, len(tf.rec), n)
+			}
+		}
+		for slot, v := range r.Slots {
+			name := tlcName(pr, slot)
+			if name == "" {
+				continue
+			}
+			if tv, ok := st[name]; !ok || !tv.equalsVal(v) {
+				return fmt.Sprintf("state %d: TLC %s = %v, reference %s = %v", k+1, name, st[name], slot, v)
+			}
+		}
+		done, err := r.Step()
+		if err != nil {
+			return "reference error: " + err.Error()
+		}
+		if done {
+			if k != len(states)-1 {
+				return fmt.Sprintf("the reference ends after %d states, TLC's behaviour has %d", k+1, len(states))
+			}
+			return ""
+		}
+	}
+}
+
+func runTool(dir string, timeout time.Duration, name string, args ...string) (string, error) {
+	cmd := exec.Command(name, args...)
+	cmd.Dir = dir
+	done := make(chan struct{})
+	var out []byte
+	var err error
+	go func() {
+		out, err = cmd.CombinedOutput()
+		close(done)
+	}()
+	select {
+	case <-done:
+		return string(out), err
+	case <-time.After(timeout):
+		if cmd.Process != nil {
+			cmd.Process.Kill()
+		}
+		<-done
+		return string(out), fmt.Errorf("timeout")
+	}
+}
+
+// tlcValidate cross-checks the reference interpreter against pcal+TLC on a sample of the enumerated programs.
 func tlcValidate(env hres.Env, cov map[string]any) {
-	cov["tlc_validation"] = "not implemented yet"
+	scratch := os.Getenv("VERIF_SCRATCH")
+	if scratch == "" {
+		scratch = os.TempDir()
+	}
+	root := filepath.Join(scratch, "c04-tlc")
+	os.MkdirAll(root, 0o755)
+	defer os.RemoveAll(root)
+	if _, err := exec.LookPath("tlc"); err != nil {
+		cov["tlc_validation"] = "skipped: tlc not on PATH"
+		return
+	}
+	// candidates: every enumerated program that has a PlusCal counterpart and terminates on the reference
+	var cands []*Prog
+	total, noCounterpart := 0, 0
+	enumerate(enumCfg{maxProcs: 2, maxSize: 4}, func(p *Prog) {
+		total++
+		if _, ok := specialise(p); !ok {
+			noCounterpart++
+			return
+		}
+		cands = append(cands, p)
+	})
+	const want = 150
+	stride := len(cands)/want + 1
+	type job struct {
+		idx int
+		pr  *Prog
+	}
+	var jobs []job
+	for i := 0; i < len(cands); i += stride {
+		for _, n := range []int{1, 2} {
+			pr := *cands[i]
+			pr.N = n
+			jobs = append(jobs, job{len(jobs), &pr})
+		}
+	}
+	var mu sync.Mutex
+	results := map[string]int{}
+	var mismatches []string
+	var samples []string
+	statesCompared := 0
+	ch := make(chan job)
+	var wg sync.WaitGroup
+	for w := 0; w < env.Workers; w++ {
+		wg.Add(1)
+		go func() {
+			defer wg.Done()
+			for j := range ch {
+				if time.Now().After(env.Deadline) {
+					mu.Lock()
+					results["not_run_deadline"]++
+					mu.Unlock()
+					continue
+				}
+				verdict, nst := validateOne(root, j.idx, j.pr)
+				mu.Lock()
+				key := verdict
+				if strings.HasPrefix(verdict, "MISMATCH") {
+					key = "mismatch"
+					if len(mismatches) < 5 {
+						mismatches = append(mismatches, verdict+" | "+j.pr.Render())
+					}
+				}
+				results[key]++
+				statesCompared += nst
+				if verdict == "equal" && len(samples) < 3 && j.pr.size() >= 3 {
+					samples = append(samples, j.pr.Render())
+				}
+				mu.Unlock()
+			}
+		}()
+	}
+	for _, j := range jobs {
+		ch <- j
+	}
+	close(ch)
+	wg.Wait()
+	cov["tlc_validation"] = map[string]any{
+		"programs_enumerated":       total,
+		"without_pluscal_counterpart": noCounterpart,
+		"candidates":                len(cands),
+		"validated_sample":          len(jobs),
+		"verdicts":                  results,
+		"states_compared":           statesCompared,
+		"mismatches":                mismatches,
+		"samples":                   samples,
+		"note":                      "a mismatch here means the reference interpreter (the oracle) disagrees with PlusCal/TLC: that is a defect of the check, reported in coverage, never as a violation of the property",
+	}
+}
+
+func validateOne(root string, idx int, pr *Prog) (verdict string, states int) {
+	// reference must terminate and be well typed
+	{
+		r := NewRef(pr)
+		for n := 0; ; n++ {
+			done, err := r.Step()
+			if err != nil {
+				return "reference_rejects_ill_typed", 0
+			}
+			if done {
+				break
+			}
+			if n > maxSteps {
+				return "too_long", 0
+			}
+		}
+	}
+	target, _ := specialise(pr)
+	name := fmt.Sprintf("V%d", idx)
+	dir := filepath.Join(root, name)
+	os.MkdirAll(dir, 0o755)
+	defer os.RemoveAll(dir)
+	os.WriteFile(filepath.Join(dir, name+".tla"), []byte(renderPlusCal(name, pr, target)), 0o644)
+	os.WriteFile(filepath.Join(dir, name+".cfg"), []byte("SPECIFICATION Spec\nCONSTANT defaultInitValue = defaultInitValue\n"), 0o644)
+	out, err := runTool(dir, 120*time.Second, "pcal", "-nocfg", name+".tla")
+	if err != nil || !strings.Contains(out, "Translation completed") {
+		if strings.Contains(out, "Missing label") {
+			return "pcal_rejects_missing_label", 0 // two assignments to one variable in a step: not PlusCal
+		}
+		return "pcal_failed", 0
+	}
+	out, err = runTool(dir, 180*time.Second, "tlc", "-dump", name+".dump", "-workers", "1", "-metadir", filepath.Join(dir, "states"), name+".tla")
+	if !strings.Contains(out, "Model checking completed. No error has been found") {
+		if strings.Contains(out, "Attempted to") || strings.Contains(out, "Error:") {
+			return "tlc_error", 0
+		}
+		return "tlc_failed", 0
+	}
+	dump, rerr := os.ReadFile(filepath.Join(dir, name+".dump"))
+	if rerr != nil {
+		return "tlc_no_dump", 0
+	}
+	sts, perr := parseDump(string(dump))
+	if perr != nil {
+		return "dump_unparsed: " + perr.Error(), 0
+	}
+	if why := compareWithTLC(pr, sts); why != "" {
+		return "MISMATCH " + why, len(sts)
+	}
+	return "equal", len(sts)
 }
